@@ -110,7 +110,22 @@ pub fn run_txttext(args: &[&str]) -> String {
                 Ok(x) => format!("OK {}", bytes_to_hex(x.as_bytes())),
                 Err(_) => "ERR InvalidUtf8String".into(),
             };
-            format!("{} | {}", out, back)
+            let mut p = simple_dns::Packet::new_query(1);
+            p.answers.push(simple_dns::ResourceRecord::new(
+                Name::new_unchecked("t"),
+                simple_dns::CLASS::IN,
+                60,
+                simple_dns::rdata::RData::TXT(t.clone()),
+            ));
+            let plain = match p.build_bytes_vec() {
+                Ok(b) => format!("OK {}", bytes_to_hex(&b)),
+                Err(e) => err_line(&e),
+            };
+            let comp = match p.build_bytes_vec_compressed() {
+                Ok(b) => format!("OK {}", bytes_to_hex(&b)),
+                Err(e) => err_line(&e),
+            };
+            format!("{} | {} | {} | {}", out, back, plain, comp)
         }
         Err(_) => "ERR".into(),
     }
